@@ -34,6 +34,10 @@ func fcB(v int) tensor.Tensor {
 // obtained, the most recent ones, or the exported field) and Forward calls; the last action is a
 // Forward whose output must be the specification's.
 func fcReplay(b *fcBeh) string {
+	return run.Guard(func() string { return fcReplay0(b) })
+}
+
+func fcReplay0(b *fcBeh) string {
 	layer, err := layers.NewFC(&layers.FCConfig{Inputs: 2, Outputs: 2})
 	if err != nil {
 		return "HARNESS: " + err.Error()
